@@ -647,6 +647,9 @@ fn run_op(c: &mut Case, t: &mut PciTransport, name: &str, args: &str, rd: &[u64]
         let en_once = tr.iter().filter(|a| a.region == "P0" && a.offset == OFF_QUEUE_ENABLE).count() == 1;
         if !(sel_first && en_last && en_once) {
             c.fail(format!("queue_set must select the queue first and enable it last: {}", tr.iter().map(|a| a.canon()).collect::<Vec<_>>().join(" ")));
+            if !sel_first {
+                c.fail(format!("[C06] PCI queue_set did not select queue {} before writing its size and areas", arg("q")));
+            }
         }
     }
     if name == "queue_set" && r.is_ok() {
@@ -673,6 +676,11 @@ fn run_op(c: &mut Case, t: &mut PciTransport, name: &str, args: &str, rd: &[u64]
     if matches!(name, "max_queue_size" | "queue_used" | "notify") && !tr.is_empty() {
         if !(tr[0].write && tr[0].region == "P0" && tr[0].offset == OFF_QUEUE_SELECT) {
             c.fail(format!("{}: per-queue field accessed before queue_select was written", name));
+            if name != "notify" {
+                // (the device's selector is whatever it was left at — 0 after a reset —, so the answer or the
+                // registration concerns another queue)
+                c.fail(format!("[C06] PCI {}: per-queue field accessed without writing queue_select first", name));
+            }
         }
     }
     if name == "notify" {
